@@ -61,6 +61,36 @@ pub fn eval_value(mv: &MV, p: &POpt, q: &QOpt) -> Result<String, (String, String
         Ok(Err(e)) => return Err(("stage=print-error".into(), e.to_string())),
         Err(pm) => return Err((format!("stage=print-panic msg={}", panic_sig(&pm)), pm)),
     };
+    // the same value printed into a writer that takes one byte per call is the same text
+    {
+        struct OneByteSink(Vec<u8>);
+        impl std::io::Write for OneByteSink {
+            fn write(&mut self, buf: &[u8]) -> std::io::Result<usize> {
+                match buf.first() {
+                    Some(b) => {
+                        self.0.push(*b);
+                        Ok(1)
+                    }
+                    None => Ok(0),
+                }
+            }
+            fn flush(&mut self) -> std::io::Result<()> {
+                Ok(())
+            }
+        }
+        let mut sink = OneByteSink(Vec::new());
+        match catch(|| lexpr::to_writer_custom(&mut sink, &v, p.to_lexpr())) {
+            Ok(Ok(())) => {}
+            Ok(Err(e)) => return Err(("stage=print-error writer=one-byte".into(), e.to_string())),
+            Err(pm) => return Err((format!("stage=print-panic writer=one-byte msg={}", panic_sig(&pm)), pm)),
+        }
+        if sink.0 != t.as_bytes() {
+            return Err((
+                "stage=print writer=one-byte text-differs".into(),
+                format!("the accepted value prints as {:?} into a string and as {:?} into a writer that takes one byte per call", clip(&t, 200), clip(&bytes_lossy(&sink.0), 200)),
+            ));
+        }
+    }
     let v2 = match catch(|| lexpr::from_str_custom(&t, q.to_lexpr())) {
         Err(pm) => return Err((format!("stage=reparse-panic msg={}", panic_sig(&pm)), format!("re-reading {:?} panicked: {}", clip(&t, 200), pm))),
         Ok(Err(e)) => {
